@@ -146,7 +146,7 @@ def main(argv=None):
             results.append(d)
 
     # ---- aggregate --------------------------------------------------------------------
-    agg = dict(queries=0, unsat=0, sat=0, unknown=0, trivial_zero=0, nonlinear=0, solver_s=0.0)
+    agg = dict(queries=0, unsat=0, sat=0, unknown=0, trivial_zero=0, nonlinear=0, rounded_away=0, solver_s=0.0)
     symexec_s = 0.0
     status_count = {}
     viol_new = []
@@ -254,6 +254,7 @@ def main(argv=None):
                 'discharged': agg['unsat'] + agg['trivial_zero'],
                 'queries_posed': agg['queries'], 'unsat': agg['unsat'], 'sat': agg['sat'], 'unknown': agg['unknown'],
                 'trivial_zero': agg['trivial_zero'], 'nonlinear_queries': agg['nonlinear'],
+                'decided_by_rounding_lemma_alone': agg['rounded_away'],
                 'solver_s': round(agg['solver_s'], 2), 'symexec_s': round(symexec_s, 2),
                 'paths_explored': paths,
                 'functions_encoded': sorted(funcs) or meta.get('functions', []),
